@@ -275,11 +275,27 @@ def rule_carry(ctx, cfg, prog, rule='R-CARRY'):
                                 flags.add(v['id'])
             # the flag controls a later write to the accumulator
             ok = False
+            via_compare = False
+            via_carry = False
+            cmp_flags = set()
+            for m2 in g.stmt_nodes():
+                for x in walk(m2.ast):
+                    tgt, src = None, None
+                    if x.get('k') == 'assign' and strip(x['lhs']).get('rk') == 'local':
+                        tgt, src = strip(x['lhs'])['id'], x['rhs']
+                    if tgt is not None and any(cc['name'] == 'compare' and acc in [pr.canon(a) for a in cc['args']] for cc in pr.calls(src)):
+                        cmp_flags.add(tgt)
+                    if x.get('k') == 'decl':
+                        for v in x['vars']:
+                            if v.get('init') is not None and any(cc['name'] == 'compare' and acc in [pr.canon(a) for a in cc['args']]
+                                                                  for cc in pr.calls(v['init'])):
+                                cmp_flags.add(v['id'])
             for cn in g.cond_nodes():
                 e = strip(cn.ast)
-                tests_flag = (e.get('k') == 'ref' and e.get('id') in flags) or \
-                    (e.get('k') == 'call' and e.get('name') == 'compare' and acc in [pr.canon(a) for a in e['args']]) or (e is c)
-                if not tests_flag or cn.id not in reach and cn.id != n.id:
+                is_cmp = (e.get('k') == 'ref' and e.get('id') in cmp_flags) or \
+                    (e.get('k') == 'call' and e.get('name') == 'compare' and acc in [pr.canon(a) for a in e['args']])
+                is_carry = (e.get('k') == 'ref' and e.get('id') in (flags - cmp_flags)) or (e is c)
+                if not (is_cmp or is_carry) or (cn.id not in reach and cn.id != n.id):
                     continue
                 for w in g.stmt_nodes():
                     writes_acc = any((x.get('k') == 'assign' and pr.canon(x['lhs']).startswith(acc + '.')) or
@@ -287,7 +303,20 @@ def rule_carry(ctx, cfg, prog, rule='R-CARRY'):
                                       x['name'] not in ('is_zero', 'is_odd', 'is_even', 'bit')) for x in walk(w.ast))
                     if writes_acc and (g.must_pass_edge(cn.id, True, w.id) or g.must_pass_edge(cn.id, False, w.id)) and w.id in g.reachable(start=cn.id):
                         ok = True
+                        via_compare = via_compare or is_cmp
+                        via_carry = via_carry or is_carry
+            # BigInt::add's returned carry is the carry out of the last *double word*: it is the overflow of the
+            # accumulator only when the width is a whole number of double words in this configuration (DESIGN note N5)
+            bits = int(tag.split(',')[0])
+            brec = prog.records.get('embedded_pairing::core::BigInt<%d>' % bits)
+            dw = [fl['t']['elem']['size'] * 8 for fl in (brec or {}).get('fields', []) if fl['name'] == 'dwords']
+            carry_exact = bool(dw) and bits % dw[0] == 0
+            why_extra = ''
+            if ok and via_carry and not via_compare and not carry_exact:
+                ok = False
+                why_extra = ' (the only overflow evidence is the value returned by BigInt<%d>::add, which is the carry out of a %d-bit ' \
+                            'double word and is never set for a %d-bit accumulator in this configuration)' % (bits, dw[0] if dw else 0, bits)
             ctx.ob(rule, ok, 'carry|WnafScalar<%s>' % tag, loc_str(c),
                    '%s: the add-back `%s.add(%s, a)` can exceed the %s-bit width (scalars within 2^window of 2^bits) and nothing '
-                   'tests for the overflow and restores the lost top bit: [k]P comes out as [k - 2^bits]P' % (f['qn'], acc, acc, tag.split(',')[0]),
+                   'tests for the overflow and restores the lost top bit: [k]P comes out as [k - 2^bits]P' % (f['qn'], acc, acc, tag.split(',')[0]) + why_extra,
                    cfg=cfg, sample=dict(config=cfg, instantiation=tag, add_site=loc_str(c), result_consumed=consumed))
